@@ -86,7 +86,7 @@ def summarize(h, res, dump):
         'assumptions': list(getattr(h, 'assumptions', [])),
         'outcome_classes': res.outcome_classes, 'wall': res.wall,
         'expect_classes': list(getattr(h, 'expect_classes', [])),
-        'smt': dump[:6],
+        'smt': [list(d) for d in dump[:8]],
     }
 
 
@@ -287,6 +287,10 @@ def check_mirsym(pid, tier, seed):
             confirmed.append((hn, label, case, what))
         else:
             spurious.append((hn, label, case, what))
+    # ---- second solver (thorough tier): re-decide dumped queries with cvc5
+    cross = cross_check(sums) if tier == 'thorough' else {'checked': 0, 'agree': 0, 'undecided': 0, 'disagree': []}
+    for d in cross['disagree']:
+        inconclusive.append('CROSS-SOLVER-DISAGREEMENT ' + d)
     # ---- translator validation: concrete vectors through MIR interpretation and the real build
     tv_total, tv_bad = translator_validation(hs, seed)
     for b in tv_bad:
@@ -332,7 +336,7 @@ def check_mirsym(pid, tier, seed):
         print('INCONCLUSIVE ' + i)
     wall = time.time() - t0
     write_evidence(pid, tier, seed, sums, hashes, confirmed, known_hits, new_viol, spurious, kernel_only, inconclusive,
-                   tv_total, wall)
+                   tv_total, wall, cross)
     total_paths = sum(s.get('n_paths', 0) for s in sums)
     total_q = sum(s.get('queries', 0) for s in sums)
     print('%s tier=%s harnesses=%d paths=%d queries=%d solver=%.1fs wall=%.1fs translator-vectors=%d  new-violations=%d known=%d inconclusive=%d' % (
@@ -343,6 +347,48 @@ def check_mirsym(pid, tier, seed):
     if inconclusive:
         return 2
     return 0
+
+
+def cross_check(sums):
+    """cvc5 on the SMT-LIB text of sampled obligation queries; a definite answer that differs from z3's is an alarm on
+    the machinery (exit 2), unknown/timeouts are tolerated and counted"""
+    from concurrent.futures import ThreadPoolExecutor
+    jobs = []
+    for s_ in sums:
+        for d in s_.get('smt', [])[:4]:
+            if len(d) >= 4 and d[3] in ('sat', 'unsat'):
+                jobs.append(d)
+    os.makedirs(os.path.join(build.BUILD, 'tmp'), exist_ok=True)
+
+    def run(d):
+        path = os.path.join(build.BUILD, 'tmp', 'q-%d-%d.smt2' % (os.getpid(), abs(hash(d[2])) % 10 ** 9))
+        with open(path, 'w') as fh:
+            fh.write('(set-logic ALL)\n' + d[2] + '\n')
+        try:
+            p = subprocess.run(['cvc5', '--lang', 'smt2', '--tlimit=20000', path], stdout=subprocess.PIPE, stderr=subprocess.PIPE, timeout=40)
+            out = p.stdout.decode().strip().split('\n')[0] if p.stdout else 'unknown'
+            if '(error' in (p.stdout.decode() + p.stderr.decode()):
+                out = 'error'
+        except subprocess.TimeoutExpired:
+            out = 'unknown'
+        finally:
+            try:
+                os.remove(path)
+            except OSError:
+                pass
+        return d, out
+    res = {'checked': 0, 'agree': 0, 'undecided': 0, 'disagree': []}
+    with ThreadPoolExecutor(max_workers=8) as ex:
+        for d, out in ex.map(run, jobs):
+            res['checked'] += 1
+            if out in ('sat', 'unsat'):
+                if out == d[3]:
+                    res['agree'] += 1
+                else:
+                    res['disagree'].append('%s [%s]: z3 %s, cvc5 %s' % (d[0], d[1][:80], d[3], out))
+            else:
+                res['undecided'] += 1
+    return res
 
 
 def translator_validation(hs, seed):
@@ -390,7 +436,7 @@ def translator_validation(hs, seed):
     return total, bad
 
 
-def write_evidence(pid, tier, seed, sums, hashes, confirmed, known_hits, new_viol, spurious, kernel_only, inconclusive, tv_total, wall):
+def write_evidence(pid, tier, seed, sums, hashes, confirmed, known_hits, new_viol, spurious, kernel_only, inconclusive, tv_total, wall, cross=None):
     os.makedirs(EVID, exist_ok=True)
     samples = []
     for s in sums:
@@ -432,6 +478,8 @@ def write_evidence(pid, tier, seed, sums, hashes, confirmed, known_hits, new_vio
                        'max_query_ms': round(max([s.get('max_query_ms', 0) for s in sums] or [0]), 1)},
             'mir_hash': hashes,
             'smt_query_samples': smt[:4],
+            'cross_solver': ({'solver': 'cvc5', 'queries_rechecked': cross['checked'], 'agree': cross['agree'], 'cvc5_undecided_or_error': cross['undecided'],
+                              'disagreements': cross['disagree']} if cross else None),
             'confirmed_violations': [{'harness': a, 'label': b, 'inputs': c['inputs'], 'what': d[:300]} for a, b, c, d in confirmed][:30],
             'known_findings_matched': [k['id'] for k, _, _, _ in known_hits],
             'kernel_only': [{'harness': a, 'label': b, 'what': d[:200]} for a, b, c, d in kernel_only][:20],
